@@ -595,6 +595,7 @@ def oracle(src, tr, tokens, resolvable=()):
     info.tree = tree
     info.where = where
     info.hidden_attr = hidden_attr
+    info.attr_key = attr_key
     info.binders = binders
     info.class_global = class_global
     info.mixed = mixed
@@ -665,9 +666,9 @@ def skip_ids(src, tr, tokens, kwl):
 
 
 def hint_crash_shape(tree, name):
-    """a class assigns `name` by an assignment statement and a base class written as a plain name is a class of the
-    module that binds `name` by an import (rope's inheritance-based assignment hint then hands an ImportedModule /
-    ImportedName to code that expects an AssignedName)"""
+    """a class assigns `name` (assignment statement, for / with target) and a base class written as a plain name is a
+    class of the module that binds `name` by an import, a def or a class (rope's inheritance-based assignment hint then
+    hands an ImportedModule / ImportedName / DefinedName to code that expects an AssignedName)"""
     classes = [n for n in ast.walk(tree) if isinstance(n, ast.ClassDef)]
 
     def block_stmts(body):
@@ -681,26 +682,39 @@ def hint_crash_shape(tree, name):
                 yield from block_stmts(h.body)
 
     def imports(cls):
+        # names the class binds by something that is not an assignment: import, def, class
         out = set()
         for st in block_stmts(cls.body):
             if isinstance(st, ast.Import):
                 out |= {a.asname or a.name.split(".")[0] for a in st.names}
             elif isinstance(st, ast.ImportFrom):
                 out |= {a.asname or a.name for a in st.names}
+            elif isinstance(st, (ast.FunctionDef, ast.AsyncFunctionDef, ast.ClassDef)):
+                out.add(st.name)
         return out
 
     def assigns(cls):
         out = set()
         for st in block_stmts(cls.body):
+            ts = []
             if isinstance(st, ast.Assign):
-                for t in st.targets:
-                    out |= {n.id for n in ast.walk(t) if isinstance(n, ast.Name)}
+                ts = st.targets
+            elif isinstance(st, (ast.For, ast.AnnAssign)):
+                ts = [st.target]
+            elif isinstance(st, ast.With):
+                ts = [i.optional_vars for i in st.items if i.optional_vars is not None]
+            for t in ts:
+                out |= {n.id for n in ast.walk(t) if isinstance(n, ast.Name)}
         return out
 
+    # the crash happens while the object of that attribute is inferred, which any query whose candidates are evaluated
+    # through it can trigger (a keyword argument of a call of it, an attribute of it): `name` None = any such attribute
     for k in classes:
-        if name in assigns(k):
+        for nm in assigns(k):
+            if name is not None and nm != name:
+                continue
             for b in k.bases:
-                if isinstance(b, ast.Name) and any(c.name == b.id and name in imports(c) for c in classes):
+                if isinstance(b, ast.Name) and any(c.name == b.id and nm in imports(c) for c in classes):
                     return True
     return False
 
@@ -770,7 +784,7 @@ def observe(src, with_rope=True, fresh=False, resolvable=()):
         o.rope, o.stray = observe_rope(src, o.tokens, fresh=fresh)
         # offsets rope may report that are NAME tokens but not identifiers of the program (keywords): stray
         for t in o.tokens:
-            if o.rope[t.id] == "EXC:AttributeError" and hint_crash_shape(tr.tree, t.name):
+            if o.rope[t.id] == "EXC:AttributeError" and hint_crash_shape(tr.tree, None):
                 o.skip[t.id] = "inherited-import-attribute-hint-crash"
     o.key, o.cat, o.info = oracle(src, tr, o.tokens, resolvable)
     # the scoping binding without import transparency (what the Coq SPEC computes): owner scope of the name
@@ -860,6 +874,8 @@ def observe_project(files, passes=1):
     from rope.contrib import findit
     obs = {}
     for path, src in files.items():
+        if not (path == LIBNAME or path.endswith(MODNAME)):
+            continue            # a decoy (pkg/__init__.py, pkg/lib.py): written, never queried; a hit there is stray
         o = observe(src, with_rope=False, resolvable=(LIBNAME[:-3],))
         if o is None:
             return None
@@ -867,6 +883,7 @@ def observe_project(files, passes=1):
     d = tempfile.mkdtemp(prefix="ropeverif-c02-")
     try:
         for path, src in files.items():
+            os.makedirs(os.path.dirname(os.path.join(d, path)), exist_ok=True)
             with open(os.path.join(d, path), "w") as f:
                 f.write(src)
         proj = Project(d, ropefolder=None)
@@ -897,11 +914,61 @@ def observe_project(files, passes=1):
                         else:
                             o.stray2.setdefault(t.id, []).append(k)
                     o.rope2[t.id] = sorted(set(ids))
+            if passes == 1:
+                rename_consistency(proj, files, obs)
         finally:
             proj.close()
     finally:
         shutil.rmtree(d, ignore_errors=True)
     return obs
+
+
+RENAMED = "zz_renamed"
+
+
+def rename_consistency(proj, files, obs, limit=24):
+    """the other observable of the property: the tokens Rename rewrites.  For the queries whose answer spans both
+    modules (and a few others) Rename(project, resource, offset).get_changes(new) must rewrite exactly the tokens
+    find_occurrences reports - in every file.  o.rename_diff[token id] = [path, ...] lists the files whose text after
+    the rename differs from 'every reported token replaced'."""
+    from rope.refactor.rename import Rename
+    for path, o in obs.items():
+        o.rename_diff = {}
+    picked = 0
+    for path, o in obs.items():
+        res = proj.get_resource(path)
+        toks = {t.id: t for t in o.tokens}
+        for t in o.tokens:
+            r = o.rope2[t.id]
+            if isinstance(r, str) or not r or t.kind in ("KImportMod",) or picked >= limit:
+                continue
+            if len({m for m, _ in r}) < 2:
+                continue
+            picked += 1
+            try:
+                changes = Rename(proj, res, t.offset).get_changes(RENAMED)
+            except Exception:  # noqa: BLE001 - refusals (builtins, bad identifiers) are not this check's subject
+                continue
+            new_text = {}
+            moved = False
+            for c in changes.changes:
+                if hasattr(c, "new_contents"):
+                    new_text[c.resource.path] = c.new_contents
+                else:
+                    moved = True
+            if moved:
+                continue
+            bad = []
+            for p2, o2 in obs.items():
+                src = files[p2]
+                spots = sorted((tk.offset for tk in o2.tokens if (p2, tk.id) in set(r)), reverse=True)
+                want = src
+                for off in spots:
+                    want = want[:off] + RENAMED + want[off + len(t.name):]
+                if new_text.get(p2, src) != want:
+                    bad.append(p2)
+            if bad:
+                o.rename_diff[t.id] = bad
 
 
 def module_level_names(o):
@@ -963,12 +1030,36 @@ def project_keys(obs):
         t = by_pos.get((name_node.lineno, name_node.col_offset))
         return o.key.get(t.id) if t is not None else None
 
+    def lib_class_attr(cls_name, attr):
+        """key of the attribute `attr` of lib's class cls_name (class-body names and self attributes, single inheritance
+        inside lib), as lib's own oracle sees it"""
+        target = libnames.get(cls_name)
+        if not target or target[0] != "class":
+            return "U"
+        k = lib.info.attr_key(target[1], attr)
+        if isinstance(k, tuple) and k[0] == "var":
+            if (k[1], attr) in lib.info.hidden_attr:
+                main_hidden.add(attr)
+            return (LIBNAME, k, attr)
+        return "U"
+
+    main_hidden = set()
     for n in ast.walk(info.tree):
         if isinstance(n, ast.Attribute) and isinstance(n.value, ast.Name):
             e = imported_entity(n.value)
             t = by_pos.get((n.end_lineno, n.end_col_offset - len(n.attr)))
             if t is not None and e == ("ent", ("mod", 0, stem)):
                 keys[(main, t.id)] = (LIBNAME, ("var", ()), n.attr) if n.attr in libnames else "U"
+            elif t is not None and isinstance(e, tuple) and e[0] == "ent" and e[1][0] == "name" and e[1][1] == 0 \
+                    and e[1][2] == stem:
+                # an attribute of a class imported from lib:  K.attr
+                keys[(main, t.id)] = lib_class_attr(e[1][3], n.attr)
+        elif isinstance(n, ast.Attribute) and isinstance(n.value, ast.Attribute) and isinstance(n.value.value, ast.Name):
+            # lib.K.attr
+            e = imported_entity(n.value.value)
+            t = by_pos.get((n.end_lineno, n.end_col_offset - len(n.attr)))
+            if t is not None and e == ("ent", ("mod", 0, stem)):
+                keys[(main, t.id)] = lib_class_attr(n.value.attr, n.attr)
         elif isinstance(n, ast.Call) and isinstance(n.func, ast.Name):
             e = imported_entity(n.func)
             if isinstance(e, tuple) and e[0] == "ent" and e[1][0] == "name" and e[1][1] == 0 and e[1][2] == stem:
@@ -1022,6 +1113,9 @@ def judge_project(obs):
             out.append({"kind": "missing", "module": p, "query": i, "tokens": missing})
         if extra:
             out.append({"kind": "extra", "module": p, "query": i, "tokens": extra})
+    for p, o in obs.items():
+        for i, bad in getattr(o, "rename_diff", {}).items():
+            out.append({"kind": "rename", "module": p, "query": i, "tokens": [], "files": bad})
     return out, keys
 
 
